@@ -181,6 +181,13 @@ fn tree_hash_cnt(count: usize) -> usize {
     pow >> 1
 }
 
+/// Verification hook (off unless built with `--cfg monero_rs_verif`): exposes the private
+/// `tree_hash_cnt` so that the /verif harness can compare it with its model on the whole domain.
+#[cfg(monero_rs_verif)]
+pub fn verif_tree_hash_cnt(count: usize) -> usize {
+    tree_hash_cnt(count)
+}
+
 fn hash_concat(a: Hash, b: Hash) -> Hash {
     let mut v = [0; Hash::len_bytes() * 2];
     v[..Hash::len_bytes()].copy_from_slice(&a[..]);
